@@ -28,6 +28,7 @@ type Obligation struct {
 	Clause  *Clause
 
 	lockOK bool
+	presolved bool // decided without a solver (STRUCT facts)
 
 	// results
 	Status string // unsat, sat, unknown, timeout, error
@@ -41,7 +42,7 @@ func (o *Obligation) Query(withModel bool) string {
 	b.WriteString("(set-option :produce-models true)\n(set-logic ALL)\n")
 	b.WriteString(o.sc.Prefix(o.mark))
 	b.WriteString("\n(assert " + o.reach.S + ")\n")
-	if o.Expect != "sat" {
+	if o.Expect != "sat" && o.Expect != "notunsat" {
 		b.WriteString("(assert (not " + o.cond.S + "))\n")
 	}
 	b.WriteString("(check-sat)\n")
@@ -205,7 +206,7 @@ func (v *FnVC) Build() (err error) {
 	// vacuity guards: every return of a contracted function must be reachable under the collected assumptions
 	if v.con != nil && (len(v.con.Ensures) > 0 || len(v.con.Iterations) > 0) {
 		for i, r := range fr.rets {
-			v.addObl("COVER-return", fmt.Sprintf("return%d", i), token.NoPos, r.reach, tTrue, nil, "sat")
+			v.addObl("CANARY", fmt.Sprintf("false-at-return%d", i), token.NoPos, r.reach, tTrue, nil, "notunsat")
 		}
 	}
 	// exit merge
@@ -1370,8 +1371,33 @@ func (v *FnVC) autoInvariant(fr *frame, li *loopInfo, phi *ssa.Phi, pre Val) (Te
 	if k, ok := exactStepAll(phi); ok && abs64(k) > 1 {
 		cong = Eq(app(SInt, "mod", Sub(cur, pv.T), IntLit(abs64(k))), tZero)
 	}
+	// range loops: i = phi[-1, i+1]; exit test (i+1) < len with len computed before the loop  ==>  i+1 <= len
+	var upper Term = tTrue
+	if phi.Comment == "rangeindex" && pv.T.S == "(- 1)" {
+		for _, ins := range b.Instrs {
+			bo, ok := ins.(*ssa.BinOp)
+			if !ok || bo.Op != token.LSS {
+				continue
+			}
+			add, ok := bo.X.(*ssa.BinOp)
+			if !ok || add.Op != token.ADD || add.X != ssa.Value(phi) {
+				continue
+			}
+			if c, ok := add.Y.(*ssa.Const); !ok || c.Value == nil || c.Value.ExactString() != "1" {
+				continue
+			}
+			// the bound must be a len() taken outside the loop
+			if call, ok := bo.Y.(*ssa.Call); ok {
+				if bi, ok := call.Call.Value.(*ssa.Builtin); ok && bi.Name() == "len" && !li.body[call.Block().Index] {
+					if lv, ok := fr.vals[call].(Sc); ok {
+						upper = Le(Add(cur, IntLit(1)), lv.T)
+					}
+				}
+			}
+		}
+	}
 	if dir > 0 {
-		return And(Le(pv.T, cur), cong), true
+		return And(Le(pv.T, cur), cong, upper), true
 	}
 	return And(Le(cur, pv.T), cong), true
 }
